@@ -155,10 +155,17 @@ pub(super) fn skip_set_tag<R: BufRead + Seek>(
 
 pub(crate) fn is_break_tag<R: BufRead + Seek>(
     raw: &mut Deserializer<R>,
+    len: cbor_event::Len,
     location: &str,
 ) -> Result<bool, DeserializeError> {
     if raw.cbor_type()? == CBORType::Special {
         if raw.special()? == CBORSpecial::Break {
+            // a break ends an indefinite-length container only
+            if let cbor_event::Len::Len(_) = len {
+                return Err(
+                    DeserializeError::from(DeserializeFailure::BreakInDefiniteLen).annotate(location)
+                );
+            }
             return Ok(true);
         }
         return Err(
